@@ -90,7 +90,20 @@ func (m *Monitors) violate(prop, sig, format string, a ...any) {
 	}
 }
 
-func (m *Monitors) onBlockSeen(*hotstuff.Block) {}
+// onBlockSeen: as soon as a block is known to the harness, a client waiter for each of its commands is
+// registered at every honest replica (commit lags proposals by >= 2 views), so executions normally have a witness.
+func (m *Monitors) onBlockSeen(b *hotstuff.Block) {
+	if !m.Exec || !m.c.Cfg.Clients || m.c.cmd == nil {
+		return
+	}
+	for _, cmd := range b.Commands().GetCommands() {
+		for _, a := range m.c.Actors {
+			if a.CIO != nil && a.Judged() && !a.Crashed {
+				m.c.cmd.submit(a, cmd)
+			}
+		}
+	}
+}
 
 func (m *Monitors) beforeHandle(a *Actor, msg any) {}
 
